@@ -150,6 +150,12 @@ def theorem_family(ew, enc, names):
     def inn(shape):
         return name in names.get(shape, ())
     af = _addr_form_ok(mems[0], mode, False) if mems else None
+    if mems and len(mems) == 1 and af is None and mode == 64 and opts == "-" and k == "-" and enc in (0x2C, 0x2D) and sig in ("RM", "MR"):
+        f = mems[0].split(":")
+        accop = (ops[0] if sig == "RM" else ops[1]).split(":")
+        if f[2] == "none" and f[4] == "none" and f[8] == "0" and accop[1] in ("gpb", "gpw", "gpd", "gpq") and accop[2] == "0" and \
+                (enc == 0x2D or (int(f[7], 16) > 0xFFFFFFFF and int(f[7], 16) < 2 ** 64 - 2 ** 31 and f[10] != "2")):
+            return "mov_moffs"
     if mems and (len(mems) > 1 or af is None):
         return None
     bc = mems[0].split(":")[9] != "0" if mems else False
